@@ -185,3 +185,60 @@ def is_action_value_list_unit(prop):
 
 
 UNITS = [adapt_classes_any_unit("C14"), is_subclass_spec_unit("C14"), parse_argv_item_unit("C14"), is_action_value_list_unit("C02")]
+
+
+# ------------------------------------------------------------------------------------- get_all_subclass_paths.<locals>.add_subclasses
+CLS_KINDS = ["public", "public-already-listed", "abstract", "private", "protocol", "local", "lazy-instance-class", "import-fails", "union-or-sequence-hint", "no-__subclasses__"]
+
+
+def asc_setup(ctx):
+    kind = CLS_KINDS[ctx.choose(len(CLS_KINDS), "class")]
+    n_sub = ctx.choose(3, "n-subclasses")
+    subs = [Rec(f"class Sub{i}") for i in range(n_sub)]
+    path = {"private": "pkg._mod.Cls"}.get(kind, "pkg.mod.Cls")
+    cl = Rec("class Cls", attrs={"__qualname__": "f.<locals>.Cls" if kind == "local" else "Cls"})
+    if kind == "union-or-sequence-hint":
+        cl.attrs["__args__"] = tuple(subs)
+    elif kind != "no-__subclasses__":
+        cl.methods["__subclasses__"] = lambda c, s_, a, k: list(subs)
+    listed = ["pkg.mod.Earlier"] + ([path] if kind == "public-already-listed" else [])
+
+    def get_import_path(c, a, k):
+        if kind == "import-fails":
+            raise PyRaise(ExcVal(["ImportError", "AttributeError"][c.choose(2, "import-error-class")], args=("no",), origin="get_import_path"))
+        return path
+
+    calls = {"get_typehint_origin": lambda c, a, k: "list-origin" if kind == "union-or-sequence-hint" else None, "get_import_path": get_import_path,
+             "is_local": lambda c, a, k: ".<locals>." in a[0].attrs["__qualname__"], "is_private": lambda c, a, k: "._" in a[0],
+             "is_subclass": lambda c, a, k: kind == "lazy-instance-class", "inspect.isabstract": lambda c, a, k: kind == "abstract", "is_protocol": lambda c, a, k: kind == "protocol",
+             "add_subclasses": lambda c, a, k: c.event("visit", a[0]), "warning": lambda c, a, k: None}
+    consts = {"sequence_origin_types": {"list-origin", "tuple-origin"}, "Union": "Union-origin", "LazyInitBaseClass": Rec("class LazyInitBaseClass")}
+    return Setup(env={"cl": cl, "subclass_list": listed}, calls=calls, consts=consts, data=dict(kind=kind, subs=subs, path=path, listed=listed, before=list(listed)))
+
+
+def asc_post(ctx, st, result):
+    d = st.data
+    k = d["kind"]
+    tag = f"[{k},{len(d['subs'])} subclasses]"
+    visited = [e[1] for e in ctx.events if e[0] == "visit"]
+    all_subs = len(visited) == len(d["subs"]) and all(x is y for x, y in zip(visited, d["subs"]))
+    if k == "union-or-sequence-hint":
+        ctx.oblige("post", "a-Union/sequence-hint-lists-nothing-itself-and-descends-into-every-member" + tag, d["listed"] == d["before"] and all_subs)
+    elif k in ("import-fails", "local", "lazy-instance-class"):
+        ctx.oblige("post", "a-class-that-cannot-be-imported-by-path(or is local / a lazy-instance class)-is-not-listed-and-nothing-below-it-is-reached-through-it" + tag, d["listed"] == d["before"] and not visited)
+    elif k in ("abstract", "private", "protocol"):
+        ctx.oblige("post", "an-abstract/private/protocol-class-is-not-offered-itself,but-the-classes-derived-from-it-are-still-reached(every subclass visited,in order)" + tag, d["listed"] == d["before"] and all_subs)
+    elif k == "public-already-listed":
+        ctx.oblige("post", "a-class-listed-before-is-not-listed-twice(its subclasses were reached then)" + tag, d["listed"] == d["before"] and not visited)
+    elif k == "no-__subclasses__":
+        ctx.oblige("post", "an-object-without-__subclasses__-is-listed-by-its-path-and-has-nothing-below" + tag, d["listed"] == d["before"] + [d["path"]] and not visited)
+    else:
+        ctx.oblige("post", "a-public-concrete-class-is-appended-by-its-import-path,then-every-subclass-is-visited-in-order" + tag, d["listed"] == d["before"] + [d["path"]] and all_subs)
+
+
+def add_subclasses_unit(prop):
+    return Unit(prop, "jsonargparse._typehints:get_all_subclass_paths.<locals>.add_subclasses", asc_setup, asc_post, None, expect_cover=("return",),
+                trusted=["get_import_path: its own unit (C14)", "inspect.isabstract / is_protocol / is_subclass / cl.__subclasses__() as documented (A4)", "the recursive call by contract"])
+
+
+UNITS.append(add_subclasses_unit("C14"))
